@@ -20,7 +20,7 @@ FP = os.path.join(common.VERIF, "contracts", "kernel_fingerprints.json")
 
 
 def list_units():
-    return {"kernels": {"props": ["C04"], "tier": "quick", "doc": __doc__},
+    return {"kernels": {"props": ["C04", "C06"], "tier": "quick", "doc": __doc__},
             "kernels_frames": {"props": ["C07"], "tier": "quick", "doc": __doc__ + "\n(C07 variant: the kernels' FRAMES - read "
                                "only the inputs, write only the requested output - are assumed contracts of the CBMC units; a "
                                "changed C / assembly kernel file is searched by the C library family (ASan/UBSan, guard pages), "
